@@ -110,7 +110,7 @@ package certs
 // C03: a certificate is made only from a round-0 DECIDE justification for a non-empty value, and carries exactly its
 // instance, supplemental data, value, signers and aggregate, plus the given delta.
 //@ func NewFinalityCertificate
-//@   property C03
+//@   property C03 C02
 //@   modifies auto
 //@   maypanic
 //@   ensures[only_from_a_round_zero_decide_for_a_non_empty_value] result1 == nil ==> justification.Vote.Phase == gpbft.DECIDE_PHASE && justification.Vote.Round == 0 && !res(IsZero, 1) && argOf(IsZero, 1, 0) == justification.Vote.Value
